@@ -404,9 +404,45 @@ def _retry_unknown(ctx, form):
             return z3.unknown
         if r == z3.unsat:
             ctx.stats.unsat += 1
-        return r
+            return r
+    except z3.Z3Exception:
+        pass
+    return _portfolio_unsat(ctx, form)
+
+
+def _portfolio_unsat(ctx, form):
+    """Last step of the fallback chain: the same query (path condition AND negated obligation, exported as SMT-LIB2 by
+    z3) put to the cvc5 1.0 and z3 4.8 binaries, 90 s each.  Only `unsat` (without any error line) is taken over; a `sat`
+    cannot deliver a model through this route and stays `unknown` (inconclusive)."""
+    import subprocess
+    import tempfile
+    try:
+        ctx.solver.push()
+        ctx.solver.add(z3.Not(form_z3(ctx, form)))
+        text = "(set-logic QF_NRA)\n" + ctx.solver.to_smt2()
     except z3.Z3Exception:
         return z3.unknown
+    finally:
+        ctx.solver.pop()
+    with tempfile.TemporaryDirectory(prefix='verif_pf_') as d:
+        path = os.path.join(d, 'q.smt2')
+        with open(path, 'w') as f:
+            f.write(text)
+        for cmd in (['cvc5', '--tlimit=90000', path], ['/usr/bin/z3', '-T:90', path]):
+            ctx.stats.queries += 1
+            t = time.perf_counter()
+            try:
+                p = subprocess.run(cmd, capture_output=True, text=True, timeout=120)
+            except (subprocess.TimeoutExpired, OSError):
+                continue
+            finally:
+                ctx.stats.solver_s += time.perf_counter() - t
+            o = p.stdout + p.stderr
+            toks = [ln.strip() for ln in p.stdout.splitlines() if ln.strip() in ('sat', 'unsat', 'unknown')]
+            if '(error' not in o and toks and toks[0] == 'unsat':
+                ctx.stats.unsat += 1
+                return z3.unsat
+    return z3.unknown
 
 
 def _robust_candidates(ctx, form, initial):
